@@ -308,7 +308,7 @@ def with_nesting(rng, ops, p=0.5):
 # slice of the correspondence (and of their predicates): every reachable combination of "what came before" up to depth.
 # ---------------------------------------------------------------------------------------------------------------
 
-def with_faults(rng, ops, malloc=True, send=True, getters=True, rate=0.12, getter_mask=0x1ff & ~3):
+def with_faults(rng, ops, malloc=True, send=True, getters=True, rate=0.12, getter_mask=0x1ff & ~3, mtu0=False):
     """a stream of operations with platform faults injected at random points before received frames (fault indices count
     from the `fault` line): single / several / all allocations refused, transmits refused, interface getters failing,
     process-wide getters failing, and the faults cleared again; the address and MTU getters (bits 0, 1) fail only when
@@ -322,6 +322,8 @@ def with_faults(rng, ops, malloc=True, send=True, getters=True, rate=0.12, gette
     if getters:
         kinds += ['g'] * 3 + ['glob'] * 2
     kinds += ['clear'] * 2
+    if mtu0:
+        kinds += ['mtu0'] * 2        # the MTU query SUCCEEDS with 0 (the core falls back to 1500, like for a failing query)
     for o in ops:
         if o.startswith('nest '):
             continue           # fault indices count calls in program order: no second thread inside a faulty stream
@@ -337,6 +339,8 @@ def with_faults(rng, ops, malloc=True, send=True, getters=True, rate=0.12, gette
                 out.append('fault sendall')
             elif k == 'g':
                 out.append('set %s getfail=%d' % (o.split()[1], rng.randrange(512) & getter_mask))
+            elif k == 'mtu0':
+                out.append('set %s mtu=0' % o.split()[1])
             elif k == 'glob':
                 out.append('glob %s' % rng.choice(['icon=none', 'fname=none', 'icon=none fname=none hwid=-', 'icon=gen:300:1 fname=gen:40:2']))
             else:
